@@ -117,7 +117,12 @@ func (e *Engine) stepCoro(st *State, co *coro, fire bool) bool {
 		// the current one cannot be compared syntactically: the go statement must have been executed
 		// on the single open path)
 		if co.forked {
-			panic(e.unsupported("goroutine started under a symbolic condition at " + co.g.site + " (go_policy coro)"))
+			// started on some paths only (the go statement was reached under a symbolic condition):
+			// it is not scheduled - a legal schedule as far as it goes; anybody who waits for it
+			// shows up as blocked
+			co.done = true
+			e.Notes = append(e.Notes, "goroutine started at "+co.g.site+" under a symbolic condition is never scheduled in this case")
+			return false
 		}
 		co.started = true
 		go e.coroMain(co)
